@@ -152,6 +152,13 @@ def one_case(r, m, stats, model_lines, expectations, fails):
                     used.add(delta)
                     break
             start = now_dt + dt.timedelta(seconds=delta) - dt.timedelta(seconds=10)
+            # jobs of an aware scheduler may be written in other offsets than the scheduler's: the rows are
+            # ordered by instant, not by the wall-clock text
+            tz_j = tz
+            if tz is not None and r.random() < 0.5:
+                start = start.astimezone(dt.timezone(dt.timedelta(microseconds=gen.rand_offset(r))))
+            if tz is not None and r.random() < 0.5:
+                tz_j = dt.timezone(dt.timedelta(microseconds=gen.rand_offset(r)))
             kw = dict(start=start, alias=alias, max_attempts=r.choice(MAXES))
             if not aio:
                 kw["weight"] = r.choice(WEIGHTS)
@@ -160,7 +167,7 @@ def one_case(r, m, stats, model_lines, expectations, fails):
                 if ty == 0:
                     j = sch.cyclic(dt.timedelta(seconds=10), h, **kw)
                 else:
-                    t = core.mk_time(gen.rand_time(r, (tz.utcoffset(None) // core.US) if tz else None))
+                    t = core.mk_time(gen.rand_time(r, (tz_j.utcoffset(None) // core.US) if tz_j else None))
                     if ty == 4:
                         j = sch.weekly(m["trigger"].weekday(r.randrange(7), t), h, **kw)
                     else:
